@@ -5,6 +5,8 @@ import Comdex.Model.Vault
 Lines (tab separated):
   vault.begin
   vault.product  id app denomIn denomOut decIn decOut minCr floor ceiling ddf closingFee isStable active outOracle outPrice
+  vault.reconfig id app denomIn denomOut decIn decOut minCr floor ceiling ddf closingFee isStable active outOracle outPrice
+                 (the product's configuration was changed through the real update paths; it replaces the entry with that id)
   vault.msg      kind a1 a2 a3 a4 a5 env outcome        (unused args are `-`; env = `esm=0;past=0;brk=0;pin=-;pout=-;iota=0`)
   vault.state    v=… s=… lk=… m=… len=… nv=… ns=… bal=…  sup=…
      v  = id:owner:prod:in:out:int:cf,…      s = id:prod:in:out,…     lk = vaultId:prod:in:out,…
@@ -27,6 +29,11 @@ structure St where
   /-- vaults re-created by the wind-down of a first-generation auction under emergency shutdown: outside the debt-floor
   clause (which speaks about owners' operations) -/
   floorExempt : List Nat := []
+  /-- C02: the supply change the model's `supplyDelta` predicts for the messages accepted since the last state line
+  (evaluated on the model state each message was applied to), and which kinds of message they were -/
+  expSup : Nat → Int := fun _ => 0
+  pendMint : Bool := false
+  pendBurn : Bool := false
 
 def init : St := {}
 
@@ -72,6 +79,7 @@ def parseMsg (kind : String) (a : List String) : Option Msg :=
   | "esmCollector" => do pure (.esmCollector (← n 0) (← n 1) (← z 2))
   | "esmBurn" => do pure (.esmBurn (← n 0) (← n 1) (← n 2) (← z 3))
   | "esmReturn1" => do pure (.esmReturn1 (← n 0) (← n 1) (← z 2) (← z 3))
+  | "esmReturn2" => do pure (.esmReturn2 (← n 0) (← n 1) (← z 2) (← z 3) (← z 4))
   | _ => none
 
 def parseProduct (f : List String) : Option Product :=
@@ -249,9 +257,14 @@ def msgMonitors (cfgL : List Product) (prev real : State) (m : Msg) (e : Env) : 
   | .withdraw _ _ pr v _ => match cfg pr with
     | none => []
     | some p => ratio p v
-  | .depositAndDraw _ _ pr v _ => match cfg pr with
+  | .depositAndDraw f _ pr v x => match cfg pr with
     | none => []
-    | some p => ratio p v
+    | some p =>
+      (match prev.vaults.find? (·.id = v) with
+       | some v0 => match userToken v0 x with
+         | some out => delivers p f out x
+         | none => []
+       | none => []) ++ ratio p v
   | .stableCreate f _ pr x => match cfg pr with
     | none => []
     | some p => delivers p f (otherToken x p.decIn p.decOut) x
@@ -261,15 +274,44 @@ def msgMonitors (cfgL : List Product) (prev real : State) (m : Msg) (e : Env) : 
   | _ => []
 
 /-- C03 state monitors: floor and ceiling on the REAL state -/
-def limitMonitors (cfgL : List Product) (exempt : List Nat) (r : State) : List String :=
+def limitMonitors (cfgL : List Product) (exempt : List Nat) (prev : Option State) (r : State) : List String :=
   let cfg := cfgOf cfgL
+  -- the limits in the form that survives a reconfiguration (`C03.floor_deficit_never_increases`,
+  -- `C03.ceiling_excess_never_increases`): a vault below the floor in force may stay there but its principal must not
+  -- have FALLEN; a product above the ceiling in force may stay there but its minted total must not have RISEN. With
+  -- an unchanged configuration this is the plain `floor ≤ principal`, `minted ≤ ceiling` on every line.
+  let notFallen (v : VaultRec) : Bool := match prev with
+    | some pv => match pv.vaults.find? (·.id = v.id) with
+      | some v0 => decide (v0.amountOut ≤ v.amountOut)
+      | none => false
+    | none => false
   let m1 := r.vaults.filterMap fun v => match cfg v.product with
-    | some p => if p.debtFloor ≤ v.amountOut ∨ exempt.contains v.id then none else
+    | some p => if p.debtFloor ≤ v.amountOut ∨ exempt.contains v.id ∨ notFallen v then none else
         some s!"floor_kept\tvault {v.id}: principal {v.amountOut} below debt floor {p.debtFloor}"
     | none => none
-  let m2 := cfgL.filterMap fun p => if r.minted p.id ≤ p.debtCeiling then none else
+  let notRisen (k : Nat) : Bool := match prev with
+    | some pv => decide (r.minted k ≤ pv.minted k)
+    | none => false
+  let m2 := cfgL.filterMap fun p => if r.minted p.id ≤ p.debtCeiling ∨ notRisen p.id then none else
     some s!"ceiling_kept\tproduct {p.id}: minted {r.minted p.id} above debt ceiling {p.debtCeiling}"
   m1 ++ m2
+
+/-- C02 per-message supply clauses on the REAL supply: since the last state line the supply of every denom moved by exactly
+what `supplyDelta` says for the accepted messages — a mint is exactly the new principal (`mint_delivers`), a burn exactly
+the principal retired (`burn_exact`), everything else (interest, fees, seizures, deposits …) leaves it alone
+(`interest_not_minted`) -/
+def supplyMonitors (cfgL : List Product) (prev real : State) (exp : Nat → Int) (mint burn : Bool) : List String :=
+  let denoms := dedup (cfgL.map (·.denomIn) ++ cfgL.map (·.denomOut))
+  denoms.filterMap fun d =>
+    let got := real.supply d - prev.supply d
+    if got = exp d then none else
+      -- a mint that is not the new principal; supply created without any minting message (interest, fees, seizures …
+      -- must come out of existing supply); a burn that is not the principal retired
+      let name := if mint then "mint_delivers" else if got > exp d ∨ ¬ burn then "interest_not_minted" else "burn_exact"
+      some s!"{name}\tsupply of denom {d} moved by {got}, the accepted messages account for {exp d}"
+
+def replaceProduct (l : List Product) (p : Product) : List Product :=
+  if l.any (·.id = p.id) then l.map (fun q => if q.id = p.id then p else q) else l ++ [p]
 
 def showV (v : VaultRec) : String := s!"{v.id}:{v.owner}:{v.product}:{v.amountIn}:{v.amountOut}:{v.interest}:{v.closingFee}"
 
@@ -280,6 +322,10 @@ def handle (st : St) (seq : String) (f : List String) : St × List String :=
     match parseProduct rest with
     | some p => ({ st with cfgL := st.cfgL ++ [p] }, [])
     | none => (st, [s!"BAD\t{seq}\tproduct"])
+  | "vault.reconfig" :: rest =>
+    match parseProduct rest with
+    | some p => ({ st with cfgL := replaceProduct st.cfgL p }, [])
+    | none => (st, [s!"BAD\t{seq}\treconfig"])
   | ["vault.msg", kind, a1, a2, a3, a4, a5, env, outcome] =>
     match parseMsg kind [a1, a2, a3, a4, a5], parseEnv env with
     | some m, some e =>
@@ -289,18 +335,32 @@ def handle (st : St) (seq : String) (f : List String) : St × List String :=
       match r with
       | some s' =>
         let st' := match m with
-          | .esmReturn1 .. => if s'.nextVault > st.s.nextVault then { st' with floorExempt := s'.nextVault :: st'.floorExempt } else st'
+          | .esmReturn1 .. | .esmReturn2 .. => if s'.nextVault > st.s.nextVault then { st' with floorExempt := s'.nextVault :: st'.floorExempt } else st'
           | _ => st'
-        if outcome = "ok" then ({ st' with s := s' }, [])
+        let cfg0 := cfgOf st.cfgL
+        let s0 := st.s
+        let old := st.expSup
+        let isBurn := match m with
+          | .repay .. | .close .. | .stableWithdraw .. | .settle .. | .settle1 .. | .esmReturn1 .. | .esmReturn2 .. | .esmCollector .. | .esmBurn .. => true
+          | _ => false
+        if outcome = "ok" then ({ st' with s := s', expSup := fun d => old d + supplyDelta cfg0 s0 e m d,
+                                           pendMint := st.pendMint || (m.mints && !(match m with | .fund .. => true | _ => false)),
+                                           pendBurn := st.pendBurn || isBurn }, [])
         -- the model accepts what the code rejects: keep the real (unchanged) state
         else (st', [s!"DIFF\t{seq}\tmodel accepts, impl rejects: {st'.lastMsg}"])
       | none =>
-        if outcome = "ok" then (st', [s!"DIFF\t{seq}\tmodel rejects, impl accepts: {st'.lastMsg}"])
+        let isMint := m.mints && !(match m with | .fund .. => true | _ => false)
+        let isBurn := match m with
+          | .repay .. | .close .. | .stableWithdraw .. | .settle .. | .settle1 .. | .esmReturn1 .. | .esmReturn2 .. | .esmCollector .. | .esmBurn .. => true
+          | _ => false
+        if outcome = "ok" then ({ st' with pendMint := st.pendMint || isMint, pendBurn := st.pendBurn || isBurn },
+                                [s!"DIFF\t{seq}\tmodel rejects, impl accepts: {st'.lastMsg}"])
         else (st', [])
     | _, _ => (st, [s!"BAD\t{seq}\tcannot parse msg/env"])
   | kind :: rest =>
     if kind ≠ "vault.state" ∧ kind ≠ "vault.state.settle" ∧ kind ≠ "vault.state.bid" ∧ kind ≠ "vault.state.settle1" ∧
-       kind ≠ "vault.state.esm" ∧ kind ≠ "vault.state.esmstable" ∧ kind ≠ "vault.state.esmburn" ∧ kind ≠ "vault.state.esmreturn" then
+       kind ≠ "vault.state.esm" ∧ kind ≠ "vault.state.esmstable" ∧ kind ≠ "vault.state.esmburn" ∧ kind ≠ "vault.state.esmreturn" ∧
+       kind ≠ "vault.state.esmreturn2" then
       (st, [s!"BAD\t{seq}\tunknown vault line"]) else
     -- `.settle`: the state after a second-generation auction closed; `.bid`: after a partial auction fill (only bidder /
     -- auction-module coins move); `.settle1`: after a FIRST-generation auction closed (burns the principal exactly, so the
@@ -309,8 +369,10 @@ def handle (st : St) (seq : String) (f : List String) : St × List String :=
     -- redeemed: finding D29 lives on those lines only); `.esmburn`: after a holder's redemption (collateral paid out of the
     -- esm account by share is not vault custody: balances adopted)
     let isSettle := kind = "vault.state.settle" || kind = "vault.state.bid" || kind = "vault.state.settle1" ||
-                    kind = "vault.state.esmburn" || kind = "vault.state.esmreturn"
-    let lenientSupply := kind = "vault.state.settle" || kind = "vault.state.bid"
+                    kind = "vault.state.esmburn" || kind = "vault.state.esmreturn" || kind = "vault.state.esmreturn2"
+    -- `.esmreturn2` (auctionsV2 `TriggerEsm`): the owner's vault is credited with debt that was never minted — the supply falls
+    -- BELOW the recorded principal (C02 asks for "never above"); the phantom record itself is C01's finding
+    let lenientSupply := kind = "vault.state.settle" || kind = "vault.state.bid" || kind = "vault.state.esmreturn2"
     match parseProj rest with
     | none => (st, [s!"BAD\t{seq}\tcannot parse state"])
     | some p =>
@@ -321,12 +383,15 @@ def handle (st : St) (seq : String) (f : List String) : St × List String :=
       let perMsg := match st.prev, st.lastOk with
         | some pv, some (m, e) => msgMonitors st.cfgL pv r m e
         | _, _ => []
-      let mons := (monitors st.cfgL st.prevGaps r lenientSupply ++ limitMonitors st.cfgL st.floorExempt r ++ perMsg).map fun m => s!"MON\t{seq}\t{m}\tafter [{st.lastMsg}]"
+      let supMons := match st.prev with
+        | some pv => supplyMonitors st.cfgL pv r st.expSup st.pendMint st.pendBurn
+        | none => []
+      let mons := (monitors st.cfgL st.prevGaps r lenientSupply ++ limitMonitors st.cfgL st.floorExempt st.prev r ++ perMsg ++ supMons).map fun m => s!"MON\t{seq}\t{m}\tafter [{st.lastMsg}]"
       -- resynchronise on the real state so that later divergences are independent
       let old := m0
       let resync : State := { r with bal := overlay p.bal old.bal }
       ({ st with s := if diffs.isEmpty then old else resync, prev := some r, lastOk := none,
-                 prevGaps := (gaps st.cfgL r) }, diffs ++ mons)
+                 prevGaps := (gaps st.cfgL r), expSup := fun _ => 0, pendMint := false, pendBurn := false }, diffs ++ mons)
   | _ => (st, [s!"BAD\t{seq}\tunknown vault line"])
 
 end Comdex.Drv.Vault
